@@ -42,6 +42,17 @@ Proof.
     apply Nat.eqb_eq in H1, H2. lia.
 Qed.
 
+Lemma chain_closedb_sound ts : chain_closedb ts = true -> closed ts.
+Proof.
+  unfold chain_closedb, closed, tcoef. intros H a b. rewrite forallb_forall in H.
+  destruct (Nat.eq_dec (count_edge (tchain ts) a b) 0) as [E1|E1].
+  - destruct (Nat.eq_dec (count_edge (tchain ts) b a) 0) as [E2|E2].
+    + rewrite ccoef_count, E1, E2. reflexivity.
+    + specialize (H (b, a) (count_pos_in _ _ _ E2)). cbn [fst snd] in H. apply Z.eqb_eq in H.
+      rewrite ccoef_count in H |- *. lia.
+  - specialize (H (a, b) (count_pos_in _ _ _ E1)). cbn [fst snd] in H. apply Z.eqb_eq in H. exact H.
+Qed.
+
 Lemma shapes_ok :
   shape_ok tetra_verts tetra_tris = true /\ shape_ok cube_verts cube_tris = true /\
   shape_ok octa_verts octa_tris = true.
